@@ -80,7 +80,7 @@ def history_cases(hists):
     out = []
     for h in hists:
         script = []
-        special = False
+        special = isinstance(h['seed'], str)        # scripted histories: the step may depend on the steps before it
         for st in h['steps']:
             script.append({'msg_text': st['msg_text'], 'obj': st.get('obj'), 'via': st.get('via', 'add')})
             if 'obs' not in st:
@@ -97,9 +97,15 @@ def history_cases(hists):
     return out
 
 
-def replay_live(live_history):
+def live_script(h, k):
+    """The live history of `h` up to and including step k (for replay files)."""
+    return {'ro_text': h['ro_text'],
+            'script': [{'msg_text': st['msg_text'], 'obj': st.get('obj'), 'via': st.get('via', 'add')} for st in h['steps'][:k + 1]]}
+
+
+def replay_live(live_history, want_object=False):
     """Re-run a recorded live history (same object re-use, same routes); returns the last step's
-    (tree before, observation)."""
+    (tree before, observation) - or the live running order itself."""
     from . import impl
     ro = impl.load(live_history['ro_text'])
     objects = {}
@@ -115,6 +121,8 @@ def replay_live(live_history):
         mo = objects[st['obj']]
         obs = impl.add(ro, mo, via=st['via'])
         obs['kind'] = type(mo).__name__
+    if want_object:
+        return ro
     return before, obs
 
 
@@ -126,15 +134,15 @@ def _reuse_plans():
     from .treejson import E
 
     def ro():
-        return B.ro_doc([B.story('S1', [B.item('a1'), B.p('one'), B.item('a2')]),
-                         B.story('S2', [B.item('b1')])], message_id='1')
+        return B.ro_doc([B.story('S1', [B.item('a1'), B.p('one'), B.item('a2')], md=B.timing_md(duration='3')),
+                         B.story('S2', [B.item('b1')], md=B.timing_md(text_time='2.5'))], message_id='1', ed_start='2021-03-04T09:00:00')
 
     def rr(mid):
-        return B.ro_replace([B.story('S1', [B.item('a1'), B.p('one'), B.item('a2')]),
-                             B.story('S2', [B.item('b1')])], message_id=str(mid))
+        return B.ro_replace([B.story('S1', [B.item('a1'), B.p('one'), B.item('a2')], md=B.timing_md(duration='3')),
+                             B.story('S2', [B.item('b1')], md=B.timing_md(text_time='2.5'))], message_id=str(mid), ed_start='2021-03-04T09:00:00')
 
     def n_story():
-        return B.story('N', [B.item('n1'), B.p('carried text'), B.item('n2'), B.item('n3')])
+        return B.story('N', [B.item('n1'), B.p('carried text'), B.item('n2'), B.item('n3')], md=B.timing_md(duration='10'))
 
     carriers = {
         'StoryAppend': B.story_append([n_story()], message_id='10'),
@@ -175,10 +183,65 @@ def _reuse_plans():
     return plans
 
 
+def _fault_then_valid_plans():
+    """A multi-element message that fails at its k-th element, then valid messages of the same class that
+    touch what the failed one had already looked up (the natural retry) - "every sequence of failures"."""
+    from . import build as B
+    import itertools
+    names = ['S1', 'S2', 'S3', 'S4']
+    items = ['i1', 'i2', 'i3', 'i4']
+
+    def ro():
+        return B.ro_doc([B.story(n, [B.item(i) for i in items] if n == 'S1' else [B.item('j1')]) for n in names], message_id='1')
+
+    bad = ['ZZ', B.BLANK]
+    plans = []
+    for a, b in itertools.permutations(names[:3], 2):
+        for x in bad:
+            fails = [('EAStoryMove', B.ea('MOVE', {'storyID': 'S4'}, [B.ids('storyID', [a, x])], message_id='10')),
+                     ('EAStoryMove', B.ea('MOVE', {'storyID': 'S4'}, [B.ids('storyID', [a, b, x])], message_id='10')),
+                     ('EAStoryMove', B.ea('MOVE', {'storyID': x}, [B.ids('storyID', [a, b])], message_id='10')),
+                     ('EAStoryMove', B.ea('MOVE', {'storyID': 'S4'}, [B.ids('storyID', [a, a])], message_id='10')),
+                     ('EAStorySwap', B.ea('SWAP', B.ABSENT, [B.ids('storyID', [a, x])], message_id='10')),
+                     ('StoryMove', B.story_move([a, x], message_id='10'))]
+            valids = [('EAStoryMove', B.ea('MOVE', {'storyID': a}, [B.ids('storyID', [b])], message_id='11')),
+                      ('EAStoryMove', B.ea('MOVE', {'storyID': b}, [B.ids('storyID', ['S4', a])], message_id='11')),
+                      ('EAStorySwap', B.ea('SWAP', B.ABSENT, [B.ids('storyID', [a, b])], message_id='11')),
+                      ('StoryMove', B.story_move([b, a], message_id='11')),
+                      ('EAStoryDelete', B.ea('DELETE', B.ABSENT, [B.ids('storyID', [a, 'S4'])], message_id='11'))]
+            for fi, f in enumerate(fails):
+                for vi, v in enumerate(valids):
+                    plans.append((f'stories {a},{b},{x!r} fail#{fi} valid#{vi}', ro(), [f, v]))
+    for a, b in itertools.permutations(items[:3], 2):
+        for x in bad:
+            fails = [('EAItemMove', B.ea('MOVE', {'storyID': 'S1', 'itemID': 'i4'}, [B.ids('itemID', [a, x])], message_id='10')),
+                     ('EAItemMove', B.ea('MOVE', {'storyID': 'S1', 'itemID': x}, [B.ids('itemID', [a, b])], message_id='10')),
+                     ('ItemMoveMultiple', B.item_move_multiple('S1', [a, x, 'i4'], message_id='10')),
+                     ('ItemMoveMultiple', B.item_move_multiple('S1', [a, b, a], message_id='10')),
+                     ('EAItemSwap', B.ea('SWAP', {'storyID': 'S1'}, [B.ids('itemID', [a, x])], message_id='10')),
+                     ('ItemDelete', B.item_delete('ZZ', [a], message_id='10'))]
+            valids = [('EAItemMove', B.ea('MOVE', {'storyID': 'S1', 'itemID': a}, [B.ids('itemID', [b])], message_id='11')),
+                      ('ItemMoveMultiple', B.item_move_multiple('S1', ['i4', b, a], message_id='11')),
+                      ('EAItemSwap', B.ea('SWAP', {'storyID': 'S1'}, [B.ids('itemID', [a, b])], message_id='11')),
+                      ('EAItemDelete', B.ea('DELETE', {'storyID': 'S1'}, [B.ids('itemID', [a, 'i4'])], message_id='11'))]
+            for fi, f in enumerate(fails):
+                for vi, v in enumerate(valids):
+                    plans.append((f'items {a},{b},{x!r} fail#{fi} valid#{vi}', ro(), [f, v]))
+    return plans
+
+
 def run_reuse_histories(views=False):
+    return _run_plans(_reuse_plans(), 'reuse:', views)
+
+
+def run_fault_then_valid_histories(views=False):
+    return _run_plans(_fault_then_valid_plans(), 'fault-then-valid:', views)
+
+
+def _run_plans(plans, prefix, views=False):
     from . import impl
     out = []
-    for name, ro_tree, plan in _reuse_plans():
+    for name, ro_tree, plan in plans:
         ro_text = TJ.to_text(ro_tree)
         ro = impl.load(ro_text)
         steps, docs, objects = [], [ro_text], []
@@ -205,5 +268,5 @@ def run_reuse_histories(views=False):
                 from . import access_family
                 step['view'] = access_family.read_view(ro)
             steps.append(step)
-        out.append({'seed': 'reuse:' + name, 'ro_text': ro_text, 'steps': steps, 'docs': docs, 'ids': []})
+        out.append({'seed': prefix + name, 'ro_text': ro_text, 'steps': steps, 'docs': docs, 'ids': []})
     return out
